@@ -264,6 +264,58 @@ def expected_after_shelve(basis, work, prompts, answers, disk):
     return exp, alt, nsel
 
 
+def shelf_tree(basis, work, prompts, answers):
+    """What the shelf holds, as a tree: the basis with exactly the selected changes applied."""
+    out = dict(basis)
+    for i, p in enumerate(prompts):
+        if not (answers[i] if i < len(answers) else False):
+            continue
+        if p[0] == "change":
+            k, fid = p[1][0], p[1][1]
+            w = work.get(fid)
+            if k == "add file":
+                out[fid] = w
+            elif k == "delete file":
+                out.pop(fid, None)
+            elif k == "rename":
+                out[fid] = (w[0], w[1]) + tuple(out[fid][2:])
+            elif k in ("change kind", "modify target"):
+                out[fid] = tuple(out[fid][:2]) + tuple(w[2:])
+    return {f: e for f, e in out.items() if e is not None and e[2] is not None}
+
+
+def structurally_sound(entries):
+    seen = set()
+    for fid, e in entries.items():
+        if e[0] != W.ROOT_ID and (e[0] not in entries or entries[e[0]][2] != "directory"):
+            return False
+        if (e[0], e[1]) in seen:
+            return False
+        seen.add((e[0], e[1]))
+    return all(p is not None for p in W.paths_of(entries).values())
+
+
+def moved_unversioned(exp, work, disk_unversioned):
+    """{unversioned path before: path after shelving}: an unversioned file lives in a directory and moves
+    with it when the directory's rename is shelved; None when its directory would disappear."""
+    wpaths = W.paths_of(work)
+    by_path = {p: f for f, p in wpaths.items() if p is not None and work[f][2] == "directory"}
+    epaths = W.paths_of(exp)
+    out = {}
+    for u in disk_unversioned:
+        d = os.path.dirname(u)
+        while d and d not in by_path:
+            d = os.path.dirname(d)
+        if not d:
+            out[u] = u
+            continue
+        fid = by_path[d]
+        if fid not in exp or exp[fid][2] != "directory" or epaths.get(fid) is None:
+            return None
+        out[u] = epaths[fid] + u[len(d):]
+    return out
+
+
 def well_formed(exp, disk_unversioned, basis, work):
     """Structural validity of by-id entries: parents are directories, names unique, paths not occupied."""
     seen = set()
@@ -283,12 +335,15 @@ def well_formed(exp, disk_unversioned, basis, work):
         return False
     wpaths = W.paths_of(work)
     bpaths = W.paths_of(basis)
+    moved = moved_unversioned(exp, work, disk_unversioned)
+    if moved is None:
+        return False
     for fid, p in paths.items():
         # a restored / moved-back entry must not land on an unversioned file or directory
         # (except its own file kept on disk when it was removed from version control)
-        if fid not in work and bpaths.get(fid) == p and p in disk_unversioned:
+        if fid not in work and bpaths.get(fid) == p and p in moved.values() and moved.get(p) == p:
             continue
-        if wpaths.get(fid) != p and any(p == u or u.startswith(p + "/") or p.startswith(u + "/") for u in disk_unversioned):
+        if wpaths.get(fid) != p and any(p == u or u.startswith(p + "/") or p.startswith(u + "/") for u in moved.values()):
             return False
     return True
 
@@ -335,6 +390,9 @@ def observe(w):
             "shelves": shelves}
 
 
+DEPENDENT = "unshelve:shelf-depends-on-unshelved-change"
+
+
 def kinds_on(prompts0, answers, fid):
     out = set()
     for i, p in enumerate(prompts0):
@@ -361,6 +419,8 @@ def check_case(acc, w, st, ops, prompts0, answers):
     except HarnessError:
         raise
     valid = well_formed(exp, st["unversioned"], st["basis"], st["work"])
+    # is the shelf self-contained, i.e. a well-formed tree relative to the basis it is stored against?
+    shelf_ok = structurally_sound(shelf_tree(st["basis"], st["work"], prompts0, answers))
     kinds = sorted({(p[1][0] if p[0] == "change" else p[0]) for i, p in enumerate(prompts0) if answers[i]})
     if 0 < nsel < len(prompts0):
         acc.nt((ops, tuple(answers)))
@@ -381,7 +441,12 @@ def check_case(acc, w, st, ops, prompts0, answers):
         return
     if [p[:2] if p[0] != "change" else p for p in prompts] != [p[:2] if p[0] != "change" else p for p in prompts0]:
         raise HarnessError("prompt sequence changed between runs: %r vs %r" % (prompts, prompts0))
-    after = observe(w)
+    try:
+        after = observe(w)
+    except Exception as e:  # noqa
+        acc.violation("shelve:%stree-unreadable-afterwards:%s" % ("" if valid else "ill-formed-subset-accepted:", type(e).__name__),
+                      dict(case, selected=kinds, error=repr(e)[:300], subset_well_formed=valid))
+        return
     if nsel == 0:
         if shelf_id is not None or after["work"] != st["work"] or after["disk"] != st["disk"] or after["shelves"] != st["shelves"]:
             acc.violation("shelve:nothing-selected-but-tree-or-shelves-changed", case)
@@ -392,8 +457,6 @@ def check_case(acc, w, st, ops, prompts0, answers):
     if not valid:
         acc.outcomes.add(("ill-formed-subset-accepted",))
         acc.count("ill_formed_accepted")
-        if os.environ.get("C15_DEBUG"):
-            print("ILL-FORMED ACCEPTED", case, exp)
     else:
         bad = None
         for fid in sorted(set(exp) | set(after["work"])):
@@ -416,17 +479,22 @@ def check_case(acc, w, st, ops, prompts0, answers):
             bad = (what, fid, g, e, b, wk)
             break
         if bad:
-            acc.violation("shelve:%s:%s" % (bad[0], kinds_on(prompts0, answers, bad[1])),
+            ko = kinds_on(prompts0, answers, bad[1])
+            if bad[0] == "exec-bit-wrong" and "change kind" in ko:
+                ko = "change kind"
+            acc.violation("shelve:%s:%s" % (bad[0], ko),
                           dict(case, file_id=bad[1], got=bad[2], expected=bad[3], basis=bad[4], before=bad[5]))
             return
         # unversioned files: untouched, none invented, shelved additions removed from disk
         exp_paths = set(W.paths_of(exp).values())
+        moved = moved_unversioned(exp, st["work"], st["unversioned"]) or {}
         for p in st["unversioned"]:
-            if p not in exp_paths and after["disk"].get(p) != st["disk"].get(p) and not any(
-                    p.startswith(q + "/") for q in exp_paths):
-                acc.violation("shelve:unversioned-file-touched", dict(case, path=p))
+            q = moved.get(p, p)
+            if q not in exp_paths and after["disk"].get(q) != st["disk"].get(p) and not any(
+                    q.startswith(r + "/") for r in exp_paths if r not in moved.values()):
+                acc.violation("shelve:unversioned-file-touched", dict(case, path=p, expected_at=q))
                 return
-        extra = [p for p in after["unversioned"] if p not in st["unversioned"]]
+        extra = [p for p in after["unversioned"] if p not in st["unversioned"] and p not in moved.values()]
         if extra:
             acc.violation("shelve:leaves-unversioned-files", dict(case, selected=kinds, paths=extra))
             return
@@ -440,16 +508,35 @@ def check_case(acc, w, st, ops, prompts0, answers):
         u = shelf_ui.Unshelver(wt, wt.get_shelf_manager(), shelf_id, apply_changes=True, delete_shelf=True)
         u.run()
     except Exception as e:  # noqa
+        if not shelf_ok:
+            acc.violation(DEPENDENT, dict(case, selected=kinds, symptom="unshelve raises %s" % repr(e)[:200]))
+            return
         acc.violation("unshelve:%s:%s" % (type(e).__name__, _frame(e)), dict(case, selected=kinds, error=repr(e)[:300]))
         return
-    fin = observe(w)
+    try:
+        fin = observe(w)
+    except Exception as e:  # noqa
+        acc.violation("unshelve:tree-unreadable-afterwards:%s" % type(e).__name__,
+                      dict(case, selected=kinds, error=repr(e)[:300]))
+        return
+    odd = {f for f in alt if alt[f] != st["basis"].get(f)}   # kept on disk with other content than the basis
+    if odd:
+        acc.outcomes.add(("kept-modified-file-reversioned",))
+        acc.count("kept_modified_files")
+        return
+    if not shelf_ok:
+        diff = [f for f in set(fin["work"]) | set(st["work"]) if not same(fin["work"].get(f), st["work"].get(f))]
+        if diff or fin["conflicts"] or fin["shelves"] != st["shelves"]:
+            acc.violation(DEPENDENT, dict(case, selected=kinds, symptom="not restored: %d entries differ, %d conflicts"
+                                          % (len(diff), fin["conflicts"])))
+            return
     diff = [f for f in set(fin["work"]) | set(st["work"]) if not same(fin["work"].get(f), st["work"].get(f))]
     if diff:
         f = sorted(diff)[0]
         g, e = fin["work"].get(f), st["work"].get(f)
         what = ("entry-lost" if g is None else "entry-invented" if e is None else "name-or-parent" if g[:2] != e[:2]
                 else "kind" if g[2] != e[2] else "content" if g[3] != e[3] else "exec-bit")
-        acc.violation("unshelve:not-restored:%s:%s" % (what, kinds_on(prompts0, answers, f)),
+        acc.violation("unshelve:not-restored:%s" % (what if what == "exec-bit" else "%s:%s" % (what, kinds_on(prompts0, answers, f))),
                       dict(case, selected=kinds, file_id=f, got=g, expected=e, conflicts=fin["conflicts"]))
         return
     if fin["conflicts"]:
